@@ -40,6 +40,8 @@ Universe ==
                          [k |-> "global", names |-> <<"lbl0">>], [k |-> "extern", names |-> <<"_ext1">>],
                          [k |-> "cfg", mn |-> "INSTRSET", s |-> "\"i486p\""], [k |-> "cfg", mn |-> "SECTION", s |-> ".text"],
                          [k |-> "cfg", mn |-> "OPTIMIZE", s |-> "1"], [k |-> "cfg", mn |-> "PADDING", s |-> "1"],
+                         [k |-> "cfg", mn |-> "SECTION", s |-> ".data"], [k |-> "cfg", mn |-> "SECTION", s |-> ".bss"],
+                         [k |-> "cfg", mn |-> "FILE", s |-> "a.nas"], [k |-> "cfg", mn |-> "FORMAT", s |-> "BIN"],
                          [k |-> "bits", v |-> 16], [k |-> "bits", v |-> 32]}
 
 VARIABLE c
